@@ -92,6 +92,27 @@ fn run<T: Evaluate>(pw: &Piecewise<T>, u: &Unit, idxs: &[usize], kind: &str, cx:
             let mut it2 = pw.evaluate_v(xs.clone());
             let _ = it2.next();
             got.push(("next() then count()", xs.len() - 1, Some(it2.count() as f64)));
+            // internal iteration (fold / for_each / collect after a partial pull) must visit the same outputs in the same order
+            let folded = pw.evaluate_v(xs.clone()).fold(Vec::new(), |mut v, y| { v.push(y); v });
+            let mut each = vec![];
+            pw.evaluate_v(xs.clone()).for_each(|y| each.push(y));
+            let mut it3 = pw.evaluate_v(xs.clone());
+            let first = it3.next();
+            let rest: Vec<f64> = it3.collect();
+            for (k, want) in all.iter().enumerate() {
+                got.push(("fold", k, folded.get(k).cloned()));
+                got.push(("for_each", k, each.get(k).cloned()));
+                got.push(("one next(), then collect()", k, if k == 0 { first } else { rest.get(k - 1).cloned() }));
+                let _ = want;
+            }
+            if folded.len() != all.len() || each.len() != all.len() || rest.len() + 1 != all.len() {
+                got.push(("fold / for_each / collect length", all.len(), None));
+            }
+            // the size hint must bracket the number of outputs actually produced
+            let (lo, hi) = pw.evaluate_v(xs.clone()).size_hint();
+            if lo > all.len() || hi.map_or(false, |h| h < all.len()) {
+                got.push(("size_hint() does not bracket the number of outputs", all.len(), None));
+            }
             (all, got)
         });
         let (all, got) = match r {
@@ -234,6 +255,68 @@ pub fn check(thorough: bool, _seed: u64) -> Check {
         bounds: json!({"piece_types": "Poly0, Poly1, Poly3, Poly5, Poly7, Poly8, Log<Poly2> (Segment sizes 16..80 bytes)", "pieces": if thorough {"every n from 2 to 3300, and 4097, 8193, 16385, 65537"} else {"every n from 2 to 1100, and 4097, 8193, 16385, 65537"},
             "arguments": "four sequences: a run of 40 strictly decreasing arguments after the cursor has reached the middle piece, then increasing again; around the last two breakpoints (pred / exact / succ) and beyond; an increasing sweep through every 37th cell into the last two cells; a sequence with decreases (first cell, middle breakpoint, last cell, back to the first cell, beyond, second-to-last breakpoint)"}),
     };
+    // a piece type whose own evaluate panics at one argument: the caller catches the panic and goes on pulling from the same
+    // iterator; the outputs after it must still be those of the running-maximum rule
+    #[derive(Clone, Copy)]
+    struct FlakyPiece {
+        id: u32,
+        poison: u64,
+    }
+    impl Evaluate for FlakyPiece {
+        fn evaluate(&self, x: f64) -> f64 {
+            if x.to_bits() == self.poison {
+                panic!("piece refuses this argument");
+            }
+            Probe(self.id).evaluate(x)
+        }
+    }
+    let fsh: Vec<Vec<f64>> = { let mut v = shapes(&[1.0, 2.0, 3.0, 4.0], 4); v.push(vec![1.0, 2.0, 2.0, 3.0, f64::INFINITY]); v };
+    let nf = fsh.len();
+    let fsh = Arc::new(fsh);
+    let flaky = Phase {
+        name: "sequences-with-a-panicking-piece",
+        units: nf,
+        split: 2,
+        body: Box::new(move |unit, cx| {
+            let ends = &fsh[unit];
+            let alpha = order_alphabet(ends);
+            let poison = alpha[cx.choose(alpha.len())];
+            let pw: Piecewise<FlakyPiece> = Piecewise { segments: ends.iter().enumerate().map(|(i, &e)| Segment { end: e, poly: FlakyPiece { id: i as u32, poison: poison.to_bits() } }).collect() };
+            let d = 1 + cx.choose(if thorough { 4 } else { 3 });
+            let xs: Vec<f64> = (0..d).map(|_| alpha[cx.choose(alpha.len())]).collect();
+            if xs.iter().any(|x| x.to_bits() == poison.to_bits()) && xs.last().map_or(false, |x| x.to_bits() != poison.to_bits()) {
+                cx.nontrivial();
+            }
+            cx.evals(d as u64);
+            if cx.sampling() {
+                cx.sample(json!({"ends": fjs(ends), "argument_at_which_pieces_panic": fj(poison), "arguments": fjs(&xs)}));
+            }
+            let mut it = pw.evaluate_v(xs.clone());
+            let mut m = f64::NEG_INFINITY;
+            for (t, &x) in xs.iter().enumerate() {
+                if x > m {
+                    m = x;
+                }
+                let got = guard(|| it.next());
+                let i = ref_index(ends, m);
+                let want = guard(|| pw.segments[i].poly.evaluate(x));
+                let ok = match (&got, &want) {
+                    (Ok(Some(a)), Ok(b)) => a.to_bits() == b.to_bits(),
+                    (Err(_), Err(_)) => true,
+                    _ => false,
+                };
+                if !ok {
+                    return Err(Fail::new(
+                        "after a panic raised by a piece's own evaluate (caught by the caller), evaluate_v no longer follows the running-maximum rule",
+                        json!({"ends": fjs(ends), "argument_at_which_pieces_panic": fj(poison), "arguments": fjs(&xs[..=t]), "got": format!("{:?}", got), "expected": format!("{:?}", want)}),
+                    ));
+                }
+            }
+            Ok(())
+        }),
+        classes: vec![],
+        bounds: json!({"shapes": "end lists of length 1..4 over {1..4}, [1,2,2,3,+inf]", "piece type": "a probe piece whose evaluate panics at one argument of A(ends) (every choice)", "sequences": "every sequence of length 1..3 (4 thorough) over A(ends), panics caught by the caller, the iterator kept"}),
+    };
     Check {
         id: "C12",
         rule: "choice tree: shape (unit) x piece type x sequence length x one argument per position; each leaf is one argument sequence fed to the real evaluate_v through an input iterator that counts next() calls; non-trivial = sequence containing a decrease or an argument equal to an end".into(),
@@ -255,7 +338,7 @@ pub fn check(thorough: bool, _seed: u64) -> Check {
                 "shapes": "all non-decreasing end lists of length 1..5 over {1..5}, of length 1..3 over the nasty value set, of length 6 over {1..6} (depth 2; 3 thorough), and the lists 1..n for n=6..9 (12 thorough; depth 3 up to n=8, then 2)",
                 "sequences": if thorough {"every sequence of length 0..5 (0..4 for 5 pieces) over A(ends)"} else {"every sequence of length 0..4 (0..3 for 5 pieces) over A(ends)"},
                 "piece_types": "Probe, Poly3"}),
-        }, sizes],
+        }, sizes, flaky],
         extra: Default::default(),
         controls: vec![],
     }
